@@ -168,6 +168,19 @@ theorem payload_damage_prefix (ps : Nat) (crc : Crc) (hdet : CrcDetects1 crc)
     simp [prep]
   · rw [hA]; simp [prep]
 
+/-- **Payload damage behind whole records.**  `A` = the bytes of any whole records `out` as the writer laid
+    them out (C13's `Reads`, the invariant of every log prefix), followed by a fragment with one damaged
+    payload byte: exactly `out` is returned, then a checksum error at the end of that fragment. -/
+theorem payload_damage_after_records (ps : Nat) (crc : Crc) (hdet : CrcDetects1 crc)
+    (A B d d' : Bytes) (typ : UInt8) (a : Nat) (out : List Bytes) (hA : Reads ps crc 0 A a out)
+    (hty : DataTyp typ) (hlen : d.length ≤ ps - 7) (h16 : d.length < 65536) (hd : OneByteDiff d d') :
+    rloop ps crc RState.init (A ++ (damagedFrame crc typ d d' ++ B)) =
+      (out, .err .crc (A.length + 7 + d.length)) := by
+  obtain ⟨ty', _, _, e⟩ := hA 0 0 (damagedFrame crc typ d d' ++ B) (Nat.zero_mod _) nonTorn_zero
+  rw [RState.init, e,
+    rloop_done (rstep_damaged ps crc ⟨0 + A.length, 0, [], ty'⟩ typ d d' B hty hlen h16 hd.1 (hdet d d' hd))]
+  simp [prep]
+
 /-- The hypotheses are satisfiable: the very first fragment of a log (`A = []`). -/
 example (crc : Crc) (h : CrcDetects1 crc) :
     rloop 32768 crc RState.init ([] ++ (damagedFrame crc recFull [1, 2, 3] [1, 9, 3] ++ [])) =
@@ -196,6 +209,21 @@ def header_damage_prefix_full : Prop :=
 theorem repair_keeps_prefix (ps pps : Nat) (crc : Crc) (hps : WF ps) (batches : List (List Bytes)) (n off : Nat) :
     keptRecs ps crc ((stream ps pps crc batches).take n) off <+: batches.flatten :=
   (keptRecs_prefix ps crc _ off).trans (truncate_prefix ps pps crc hps batches n)
+
+/-- **Repair keeps every undamaged record before the corruption.**  If the corrupted segment file begins
+    with the bytes `good` of whole records `out` exactly as the writer laid them out (`Reads … good … out`,
+    the invariant of every log prefix, C13), whatever follows them, and the corruption was reported beyond
+    them, then `Repair` re-inserts all of `out`, in order, before anything else. -/
+theorem repair_keeps_records_before (ps : Nat) (crc : Crc) (good junk : Bytes) (a : Nat) (out : List Bytes)
+    (off : Nat) (hg : Reads ps crc 0 good a out) (hoff : good.length < off) :
+    out <+: keptRecs ps crc (good ++ junk) off :=
+  keptRecs_keeps_good ps crc good junk out off (by rw [hg.rloop_eq]) hoff
+
+/-- The premise is met by what the writer produces for any records, e.g. from the start of a segment. -/
+example (ps : Nat) (crc : Crc) (hps : WF ps) (rec : Bytes) :
+    ∃ a, Reads ps crc 0 (fragBytes ps crc (fragFuel rec) 0 0 rec) a [rec] := by
+  obtain ⟨a, _, h⟩ := Reads.frag crc hps.1 hps.2 (a := 0) (by have := hps.1; omega) rec
+  exact ⟨a, h⟩
 
 /-- **Repair leaves every older segment alone** (and removes every newer one: the result holds nothing
     between the rewritten segment and the new empty one). -/
